@@ -2,7 +2,7 @@
 use crate::rng::Rng;
 
 pub const KINDS: &[&str] = &[
-    "zeros", "runs", "text4", "random", "highbyte", "sparse3", "words", "repeat_far", "xx", "ramp", "skew", "wrap_runs", "fat_boundary", "lazy_cut",
+    "zeros", "runs", "text4", "random", "highbyte", "sparse3", "words", "repeat_far", "xx", "ramp", "skew", "wrap_runs", "fat_boundary", "lazy_cut", "far_trigram", "deep_tree",
 ];
 
 pub fn gen(rng: &mut Rng, kind: &str, len: usize) -> Vec<u8> {
@@ -74,6 +74,43 @@ pub fn gen(rng: &mut Rng, kind: &str, len: usize) -> Vec<u8> {
             v.extend_from_slice(&rest[..cut]);
             v.extend_from_slice(&pool[..rare]);
             v.extend_from_slice(&rest[cut..]);
+        }
+        "far_trigram" => {
+            // filler whose bytes avoid one low nibble, so that the hash buckets of a few marker trigrams
+            // (which contain that nibble) stay untouched for a long time; each marker is planted again
+            // 28 000 .. 32 768 bytes later followed by DIFFERENT bytes: a stale hash entry must be
+            // rejected, not matched against the data that has since overwritten the dictionary slot
+            let nib = rng.below(16) as u8;
+            for _ in 0..len { let mut b = rng.byte(); if b & 15 == nib { b ^= 1; } v.push(b); }
+            let mut p = rng.range(100, 3000);
+            while p + 33000 < len {
+                let m = [(rng.byte() & 0xF0) | nib, (rng.byte() & 0xF0) | nib, (rng.byte() & 0xF0) | nib];
+                let d = *rng.pick(&[32768usize, 32768, 32767, 32766, 32760, 32512, 31000, 30000, 28672, 28000]);
+                let d = if rng.chance(1, 3) { rng.range(28000, 32768) } else { d };
+                for i in 0..3 { v[p + i] = m[i]; v[p + d + i] = m[i]; }
+                // what follows the second copy differs from what follows the first
+                for i in 3..8 { if p + d + i < len { v[p + d + i] = v[p + i].wrapping_add(0x11) & !15 | ((nib + 1) & 15); } }
+                p += rng.range(200, 9000);
+            }
+        }
+        "deep_tree" => {
+            // exact Fibonacci frequencies over 17..32 symbols, shuffled: the unrestricted Huffman tree is
+            // deeper than 15, so the length limiter has real work to do (every symbol must keep a code)
+            let k = rng.range(17, 32);
+            let base = rng.byte();
+            // no ties between the small counts (ties let the builder balance the tree)
+            let a0 = rng.range(1, 2);
+            let (mut a, mut b) = (a0, a0 + rng.range(1, 2));
+            let mut pool: Vec<u8> = vec![];
+            for i in 0..k {
+                if pool.len() + a > len.max(5000).min(56000) { break; }
+                let sym = base.wrapping_add((i * 5) as u8);
+                for _ in 0..a { pool.push(sym); }
+                let c = a + b; a = b; b = c;
+            }
+            for i in (1..pool.len()).rev() { let j = rng.below(i + 1); pool.swap(i, j); }
+            v = pool;
+            let n = v.len(); return { v.truncate(n); v };
         }
         "lazy_cut" => {
             // incompressible filler (a 16-bit counter: no 3-byte repeats) in which a deferred (lazy) match
